@@ -258,8 +258,23 @@ _sg_cases = []
 for _cls in ("Metabolite", "Gene"):
     _c = Case(_cls, ensures=_getstate_post({"_model": _is_none, "_reaction": _new_empty("set")}))
     _c.params_override = {"self": _obj_t(_cls)}
+    _c.applies = (lambda cls: lambda a, st: getattr(a["self"], "cls", None) == cls)(_cls)
     _sg_cases.append(_c)
-REG.add(Contract("cobra/core/species.py", "Species.__getstate__", "C12", [("self", _obj_t("Metabolite"))], _sg_cases, key=KEY_SPECIES_GET))
+
+
+def _sg_result(eng, st, E):
+    """at a call site (contracts/c12_species_copy.py): the new record the proved cases describe - `_model` None, `_reaction` a NEW EMPTY set"""
+    items = []
+    for k, x in _attr_items(st, E["self"]):
+        if k == "_reaction":
+            st, x = alloc_set(st, "ref:Reaction", dom=z3.K(Ref, z3.BoolVal(False)))
+        items.append((k, NONE if k == "_model" else x))
+    st2, o = alloc_obj(st, "dict", {"pure": True, "pyitems": tuple(items)})
+    return st2, VObj(o.oid, "dict", "dict")
+
+
+REG.add(Contract("cobra/core/species.py", "Species.__getstate__", "C12", [("self", _obj_t("Metabolite"))], _sg_cases, key=KEY_SPECIES_GET,
+                 result=_sg_result))
 
 
 # ---------------------------------------------------------------- Reaction.__getstate__
